@@ -6,12 +6,20 @@ strings.  Sizes and the submitter / threshold expressions are regenerated from
 the source on every run (`Gen/DosnodeConsts.lean`, extractor
 go/extract/dosnodeconsts) and pinned here.  `dataParse` (ajson, xmlquery) is an
 external function: its determinism is NOT proved, it is tested by the
-correspondence run (8 sequential + 8 concurrent evaluations per case).
+correspondence run (8 sequential + 8 concurrent evaluations per case, and the
+`cq` cases: G goroutines released on a barrier, rich selector grammar).
+Round 4 (sections 6–9 below): the evaluation of a URL query as a machine and ANY
+interleaving of k evaluations = k one-shot results; the whole path content →
+share → recovery → report for the three request kinds; the group table and the
+submitter on the list as announced; the regenerated statement skeletons these
+models transcribe are pinned in Props/C07Flow.lean.
 "Every member computes the identical string" is, for the model, the fact that
 these are functions of the request fields only (no state, no member identity);
 for the code it is what the tie checks.
 -/
 import DosModel.Proofs.Content
+import DosModel.Proofs.Eval
+import DosModel.Proofs.ContentPath
 import DosModel.Gen.DosnodeConsts
 import DosModel.Gen.ChainHandlerFacts
 
@@ -175,6 +183,226 @@ theorem submitter_ignores_high_bits (r hi n : Nat) : submitterIdx (r + hi * 2 ^ 
 /-- **5. threshold**: `n/2+1` is a strict majority and at most `n` (for `n ≥ 1`). -/
 theorem threshold_majority (n : Nat) (hn : 1 ≤ n) : n < 2 * threshold n ∧ threshold n ≤ n := by
   unfold threshold; omega
+
+/-! ### 6. repeated and concurrent evaluation (Model/Eval.lean)
+
+`Engines` are the external selector engines (ajson, xmlquery): arbitrary FUNCTIONS of
+(document, selector) – that the real ones are functions (deterministic, no state kept between or
+shared by evaluations) is what the `cq` cases test and what `c07_no_package_state` /
+`c07_parse_shape` (Props/C07Flow.lean) exclude for the code around them. -/
+
+/-- **6a. the dispatch of `dataParse`**: empty selector → the document itself; first byte `$` →
+the JSON engine; `/` → the XML engine, its nodes joined with a line feed after each; any other
+selector → an empty result (not an error). -/
+theorem parse_dispatch (E : Eval.Engines) (doc rest : Bytes) (c : UInt8) :
+    Eval.dataParse E doc [] = .ok doc
+    ∧ Eval.dataParse E doc (0x24 :: rest) = E.json doc (0x24 :: rest)
+    ∧ (∀ ns, E.xml doc (0x2f :: rest) = .nodes ns → Eval.dataParse E doc (0x2f :: rest) = .ok (Eval.xmlJoin ns))
+    ∧ (E.xml doc (0x2f :: rest) = .err → Eval.dataParse E doc (0x2f :: rest) = .err)
+    ∧ (c ≠ 0x24 → c ≠ 0x2f → Eval.dataParse E doc (c :: rest) = .ok []) := by
+  refine ⟨rfl, by simp [Eval.dataParse], ?_, ?_, ?_⟩
+  · intro ns h; simp [Eval.dataParse, h]
+  · intro h; simp [Eval.dataParse, h]
+  · intro h1 h2; simp [Eval.dataParse, h1, h2]
+
+example : Eval.dataParse ⟨fun _ _ => .err, fun _ _ => .nodes [[1], [2, 3]]⟩ [9] [0x2f, 0x61] = .ok [1, 10, 2, 3, 10] := by decide
+example : Eval.dataParse ⟨fun _ _ => .err, fun _ _ => .err⟩ [9, 9] [0x5b] = .ok [] := by decide
+
+/-- **6b. one evaluation, cut at its statements, is the one-shot function**: run for `turns` steps
+or longer, the machine of `genQueryResult` ends with exactly `queryResult` – the parsed result
+followed by the submitter address, or no content when the selector fails. -/
+theorem eval_machine_is_function (E : Eval.Engines) (r : Eval.Req) (k : Nat) (hk : Eval.turns E r ≤ k) :
+    Eval.result (Eval.iter E k (Eval.init r)) = some (Eval.queryResult E r) :=
+  Eval.machine_is_queryResult E r k hk
+
+example : Eval.result (Eval.iter ⟨fun _ _ => .err, fun _ _ => .nodes [[1], [2]]⟩ 5 (Eval.init ⟨[7], [0x2f], [0xAA]⟩))
+    = some (some [1, 10, 2, 10, 0xAA]) := by decide
+
+/-- **6c. any interleaving of k evaluations = k independent results.**  `rs` are the requests in
+flight on one node (the same request several times, different selectors on one document, one
+selector on different documents – anything), `sch` ANY schedule of their steps (who runs when; no
+fairness assumed beyond each evaluation getting its `turns`; indices outside the list are idle
+turns).  Then the results are, position by position, the one-shot results `queryResult E rs[i]`:
+no evaluation sees another. -/
+theorem eval_interleaving_pointwise (E : Eval.Engines) (rs : List Eval.Req) (sch : List Nat)
+    (hfair : ∀ i (h : i < rs.length), Eval.turns E rs[i] ≤ sch.count i) :
+    (Eval.runSched E sch (rs.map Eval.init)).map Eval.result = rs.map (fun r => some (Eval.queryResult E r)) := by
+  apply List.ext_getElem?
+  intro i
+  rw [List.getElem?_map, Eval.runSched_getElem?, List.getElem?_map, List.getElem?_map]
+  by_cases h : i < rs.length
+  · rw [List.getElem?_eq_getElem h]
+    simp only [Option.map_some]
+    rw [Eval.machine_is_queryResult E rs[i] _ (hfair i h)]
+  · rw [List.getElem?_eq_none (by omega)]; rfl
+
+example : (Eval.runSched ⟨fun _ _ => .ok [5], fun _ _ => .nodes [[1], [2]]⟩ [1, 0, 1, 1, 0, 7, 1, 1, 0]
+    [Eval.init ⟨[], [0x24], [0xAA]⟩, Eval.init ⟨[], [0x2f], [0xBB]⟩]).map Eval.result
+      = [some (some [5, 0xAA]), some (some [1, 10, 2, 10, 0xBB])] := by decide
+
+/-- **6d. a history of evaluations is pointwise the one-shot result, and repeating a request
+repeats its result**: whatever was evaluated before or is evaluated at the same time, two
+evaluations of the same (document, selector, submitter) – on one node or on two – give the same
+signed content. -/
+theorem eval_history_pointwise (E : Eval.Engines) (rs : List Eval.Req) (i j : Nat) (hi : i < rs.length)
+    (hj : j < rs.length) (hsame : rs[i] = rs[j]) :
+    (Eval.runHistory E rs)[i]? = some (Eval.queryResult E rs[i])
+    ∧ (Eval.runHistory E rs)[i]? = (Eval.runHistory E rs)[j]?
+    ∧ ∀ (rs' : List Eval.Req) (sch sch' : List Nat) (i' : Nat) (hi' : i' < rs'.length), rs'[i'] = rs[i] →
+        Eval.turns E rs[i] ≤ sch.count i → Eval.turns E rs[i] ≤ sch'.count i' →
+        ((Eval.runSched E sch (rs.map Eval.init))[i]?).map Eval.result
+          = ((Eval.runSched E sch' (rs'.map Eval.init))[i']?).map Eval.result := by
+  refine ⟨by simp [Eval.runHistory, hi], by simp [Eval.runHistory, hi, hj, hsame], ?_⟩
+  intro rs' sch sch' i' hi' he h1 h2
+  rw [Eval.runSched_getElem?, Eval.runSched_getElem?, List.getElem?_map, List.getElem?_map,
+    List.getElem?_eq_getElem hi, List.getElem?_eq_getElem hi']
+  simp only [Option.map_some]
+  rw [Eval.machine_is_queryResult E rs[i] _ h1, he, Eval.machine_is_queryResult E rs[i] _ h2]
+
+example : Eval.runHistory ⟨fun d _ => .ok d, fun _ _ => .err⟩ [⟨[1], [0x24], [9]⟩, ⟨[2], [0x2f], [9]⟩, ⟨[1], [0x24], [9]⟩]
+    = [some [1, 9], none, some [1, 9]] := by decide
+
+/-! ### 7. from the content to the chain: genSign → dispatchSign → recoverSign → reportQueryResult
+
+`Query.handleQuery` (Model/Query.lean, shared with C01) is the pipeline of one node over abstract
+threshold-BLS operations; `fc` is whatever reaches the recovery stage from the peers, in any order. -/
+
+/-- **7. the result submitted is exactly the signed string without its trailing 20 bytes, for
+all three request kinds, whatever the peers send.**  If the member computed its content `c0` (the
+string it signed), then every report it makes carries `result` with `result ++ own address = c0`,
+`result` is what the strip of `recoverSign` yields on `c0`, and it is: the 32-byte big-endian last
+randomness (system randomness), `requestId ‖ lastRand ‖ seed` as minimal big-endian numbers (user
+randomness), the parsed document (URL query). -/
+theorem path_reported_is_signed_minus_address (C : Query.Crypto) (mb : Query.Member) (r : Query.Request)
+    (fc : List (Option Query.Msg)) (c0 : Bytes)
+    (hc0 : Query.contentFor Gen.padSize r mb.me = some c0) (hlen : mb.me.length = 20) :
+    ∀ rep ∈ (Query.handleQuery C Gen.padSize Gen.stripLen mb r fc).reports,
+      rep.result ++ mb.me = c0 ∧ stripResult Gen.stripLen c0 = .ok rep.result ∧
+      (match r.kind with
+        | .sys => rep.result = natBE 32 r.last
+        | .user => rep.result = natBytes r.rid ++ natBytes r.last ++ natBytes r.seed
+        | .url => r.parsed = some rep.result) := by
+  intro rep hrep
+  have h20 : Gen.stripLen = 20 := c07_constants.2.2.2
+  have h32 : Gen.padSize = 32 := c07_constants.2.2.1
+  obtain ⟨hal, hres⟩ := Query.report_is_strip C Gen.padSize Gen.stripLen mb r fc c0 hc0 rep hrep
+  obtain ⟨d, hd⟩ := Query.contentFor_shape hc0
+  have hcat : rep.result ++ mb.me = c0 := by
+    rw [hres, hd, h20]; simp [hlen]
+  refine ⟨hcat, by rw [← hcat]; exact strip_append _ _ hlen, ?_⟩
+  rw [h32] at hc0
+  unfold Query.contentFor at hc0
+  cases hk : r.kind with
+  | sys =>
+    simp only [hk, Option.some.injEq] at hc0
+    simp only []
+    have : sysContent 32 r.last mb.me = natBE 32 r.last ++ mb.me := by
+      simp only [sysContent, sysContentRaw]; rw [padOrTrim_eq_natBE, beNat_natBytes]
+    rw [this, ← hcat] at hc0
+    exact (List.append_cancel_right hc0).symm
+  | user =>
+    simp only [hk, Option.some.injEq] at hc0
+    simp only []
+    rw [user_is_result_then_addr, ← hcat] at hc0
+    exact (List.append_cancel_right hc0).symm
+  | url =>
+    simp only [hk] at hc0
+    simp only []
+    cases hp : r.parsed with
+    | none => simp [hp] at hc0
+    | some p =>
+      simp only [hp, Option.map_some, Option.some.injEq, queryContent] at hc0
+      rw [← hcat] at hc0
+      rw [List.append_cancel_right hc0]
+
+/-- **7b. every member signs the identical string**: the content a member signs (and sends to the
+submitter, or keeps when it is the submitter) depends on the member only through the member list:
+two members holding the list as announced, handling the same event fields and (for a URL query) the
+same parse result, choose the same submitter and sign the same bytes – also when either of them
+evaluates the request again. -/
+theorem members_sign_identical (p : Nat) (mb1 mb2 : Query.Member) (r1 r2 : Query.Request)
+    (hids : mb1.ids = mb2.ids) (hk : r1.kind = r2.kind) (hq : r1.rid = r2.rid) (hl : r1.last = r2.last)
+    (hs : r1.seed = r2.seed) (hp : r1.parsed = r2.parsed) :
+    submitter mb1.ids r1.last = submitter mb2.ids r2.last
+    ∧ (submitter mb1.ids r1.last).bind (Query.contentFor p r1) = (submitter mb2.ids r2.last).bind (Query.contentFor p r2) := by
+  have hc : Query.contentFor p r1 = Query.contentFor p r2 := by
+    funext a; unfold Query.contentFor; rw [hk, hq, hl, hs, hp]
+  rw [hids, hl, hc]; exact ⟨rfl, rfl⟩
+
+example : (submitter [[1], [2], [3]] 7).bind (Query.contentFor 32 ⟨.user, 1, 7, 2, none⟩) = some [1, 7, 2, 2] := by decide
+
+/-! ### 8. the submitter: all magnitudes, all group sizes, the list as announced -/
+
+/-- **8a. every magnitude, every group size.**  For any last randomness `r` (below 2^63, between
+2^63 and 2^64 where a signed conversion would go negative, above 2^64, above 2^256) and any list of
+`n ≥ 1` members – also more than 255 or 65535 – the member chosen is entry
+`(r mod 2^64) mod n` of the list AS GIVEN; the conversion `uint64(len(ids))` changes nothing for
+any length a Go slice can have. -/
+theorem submitter_all_magnitudes (ids : List Bytes) (r : Nat) (hn : 0 < ids.length) :
+    ∃ h : r % 2 ^ 64 % ids.length < ids.length,
+      submitter ids r = some ids[r % 2 ^ 64 % ids.length]
+      ∧ Gen.submitterExpr r ids.length = r % 2 ^ 64 % ids.length
+      ∧ (ids.length < 2 ^ 63 → r % 2 ^ 64 % (ids.length % 2 ^ 64) = r % 2 ^ 64 % ids.length) := by
+  have hlt := Nat.mod_lt (r % 2 ^ 64) hn
+  refine ⟨hlt, ?_, by simp [Gen.submitterExpr], ?_⟩
+  · have : ids.length ≠ 0 := by omega
+    simp [submitter, submitterIdx, this]
+  · intro h; rw [Nat.mod_eq_of_lt (show ids.length < 2 ^ 64 by omega)]
+
+example : submitter ((List.range 300).map (fun i => [UInt8.ofNat (i / 256), UInt8.ofNat i])) (2 ^ 256 + 2 ^ 63 + 291)
+    = some [1, 43] := by decide +kernel
+example : submitterIdx (2 ^ 63) 7 = some 1 ∧ submitterIdx (2 ^ 64 - 1) 300 = some 15 := by decide
+
+/-- **8b. the order matters and is the announced one**: the index is computed from `(r, n)` only,
+so two lists that differ (a sorted copy, a de-duplicated copy, another permutation) give different
+submitters as soon as they differ at that index; conversely a node that keeps the announced list
+gets entry `(r mod 2^64) mod n` of the announcement. -/
+theorem submitter_depends_on_order (ids ids' : List Bytes) (r : Nat) (hlen : ids.length = ids'.length)
+    (hn : 0 < ids.length) (hdiff : ids[r % 2 ^ 64 % ids.length]? ≠ ids'[r % 2 ^ 64 % ids.length]?) :
+    submitter ids r ≠ submitter ids' r := by
+  have h0 : ids.length ≠ 0 := by omega
+  have h0' : ids'.length ≠ 0 := by omega
+  simp only [submitter, submitterIdx, h0, if_false, ← hlen]
+  exact hdiff
+
+example : submitter [[2], [1], [3]] 0 = some [2] ∧ submitter [[1], [2], [3]] 0 = some [1] := by decide
+
+/-- **8c. the group table keeps the list as announced.**  After ANY sequence of LogGrouping /
+dissolve events, whatever list a node holds for group `gid` is the `NodeId` list of a LogGrouping
+event for `gid` that names the node – element for element, in the announced order, nothing
+removed, nothing re-sorted. -/
+theorem member_list_as_announced (me : Bytes) (ops : List Eval.Op) (gid : Nat) (l : List Bytes)
+    (h : Eval.Book.ids (Eval.Book.run me ops) gid = some l) :
+    Eval.Op.grouping gid l ∈ ops ∧ me ∈ l := by
+  rcases Eval.run_ids_announced me ops [] gid l h with h0 | h1
+  · simp [Eval.Book.ids] at h0
+  · exact h1
+
+example : Eval.Book.ids (Eval.Book.run [7] [.grouping 1 [[9], [7], [9]], .grouping 1 [[7], [9]], .dissolve 2]) 1
+    = some [[9], [7], [9]] := by decide
+
+/-- **8d. every member computes the identical submitter.**  If the chain announced group `gid`
+once in the history two nodes saw (each possibly with other events before, between and after, in
+its own order), then whatever the two nodes hold for `gid` is that one list, and for every last
+randomness they choose the same submitter: entry `(r mod 2^64) mod n` of the announced list. -/
+theorem members_agree_on_submitter (me1 me2 : Bytes) (ops1 ops2 : List Eval.Op) (gid r : Nat)
+    (announced l1 l2 : List Bytes)
+    (huniq1 : ∀ l, Eval.Op.grouping gid l ∈ ops1 → l = announced)
+    (huniq2 : ∀ l, Eval.Op.grouping gid l ∈ ops2 → l = announced)
+    (h1 : Eval.Book.ids (Eval.Book.run me1 ops1) gid = some l1)
+    (h2 : Eval.Book.ids (Eval.Book.run me2 ops2) gid = some l2) :
+    l1 = announced ∧ l2 = announced
+    ∧ Eval.Book.submitterOf (Eval.Book.run me1 ops1) gid r = Eval.Book.submitterOf (Eval.Book.run me2 ops2) gid r
+    ∧ Eval.Book.submitterOf (Eval.Book.run me1 ops1) gid r = submitter announced r := by
+  have e1 := huniq1 l1 (member_list_as_announced me1 ops1 gid l1 h1).1
+  have e2 := huniq2 l2 (member_list_as_announced me2 ops2 gid l2 h2).1
+  subst e1
+  refine ⟨rfl, e2, ?_, ?_⟩
+  · simp [Eval.Book.submitterOf, h1, h2, e2]
+  · simp [Eval.Book.submitterOf, h1]
+
+example : Eval.Book.submitterOf (Eval.Book.run [7] [.grouping 5 [[9], [7], [8]]]) 5 (2 ^ 64 + 2)
+    = some [8] ∧ Eval.Book.submitterOf (Eval.Book.run [8] [.dissolve 5, .grouping 5 [[9], [7], [8]], .grouping 6 [[8]]]) 5 (2 ^ 64 + 2) = some [8] := by decide
 
 /-! ### non-vacuity -/
 example : sysContent 32 0 [0xAA] = List.replicate 32 0 ++ [0xAA] := by decide
